@@ -444,16 +444,19 @@ vector<Graph_SP> Graph::getConnComps(void) const {
 
 void Graph::getChainsAndCycles(std::vector<std::deque<Node_SP> > &chains, std::vector<std::deque<Node_SP> > &cycles) {
     // First identify all links in the Graph, i.e. Nodes of degree 2.
-    std::set<Node_SP> allLinks;
+    // We keep them in a lookup ordered by Node ID, rather than in a set ordered by pointer
+    // value, so that the order in which chains and cycles are discovered (and the direction in
+    // which each one is listed) does not depend on where the Nodes happened to be allocated.
+    NodesById allLinks;
     for (auto p : m_nodes) {
         Node_SP u = p.second;
-        if (u->getDegree() == 2) allLinks.insert(u);
+        if (u->getDegree() == 2) allLinks.insert({u->id(), u});
     }
     // Now we explore all the links, building chains and cycles.
     while (!allLinks.empty()) {
-        // Take any link still in the set.
+        // Take the link of lowest ID still in the lookup.
         auto it = allLinks.begin();
-        Node_SP L0 = *it;
+        Node_SP L0 = it->second;
         allLinks.erase(it);
         // Initialise a deque to hold all links in the chain to which L0 belongs.
         std::deque<Node_SP> links{L0};
@@ -481,7 +484,7 @@ void Graph::getChainsAndCycles(std::vector<std::deque<Node_SP> > &chains, std::v
                     done = true;
                 } else if (next->getDegree() == 2) {
                     // This must be a link which we have not encountered before.
-                    allLinks.erase(next);
+                    allLinks.erase(next->id());
                     // Add this link to the correct side of the deque, according to the
                     // direction in which we are currently exploring.
                     if (direc == 1) {
